@@ -76,13 +76,33 @@ func c09Conn(srv *svc.Server, cid int, seed uint64, nframes int) (viol [][2]stri
 	// every fourth connection starts with a lone sub-package fragment (a terminal resuming an upload after a reconnect): the
 	// connection joins with it, so the join callback holds a message that the read callbacks never see
 	fragFirst := cid%4 == 1
+	firstWasUpload := false
 	if fragFirst {
 		first = 0x00f0
 		fb := make([]byte, l)
 		for j := range fb {
 			fb[j] = byte(0x40 + j%0x30)
 		}
-		if t.Write(t.SubFrame(0x0801, first, 3, 2, fb)) != nil {
+		if cid%8 == 5 {
+			// ... or with packet 1 of an upload whose other packets are tiny and follow at once: the join callback holds packet
+			// 1's message while the reassembled body is put together from (a copy of) its bytes
+			fb[0], fb[1], fb[2], fb[3] = 0x31, 0x32, 0x33, 0x34
+			for len(fb) < 36 {
+				fb = append(fb, 0x35)
+			}
+			if t.Write(t.SubFrame(0x0801, first, 3, 1, fb)) != nil || t.Write(t.SubFrame(0x0801, first+1, 3, 2, []byte{0x61})) != nil || t.Write(t.SubFrame(0x0801, first+2, 3, 3, []byte{0x62})) != nil {
+				return nil, true, 0, nil
+			}
+			rx, ok, to := t.Next(30 * time.Second)
+			if to {
+				return nil, true, 0, nil
+			}
+			if !ok || rx.F == nil || rx.F.ID != 0x8800 || !bytes.Equal(rx.F.Body, fb[:4]) {
+				bad("reply|reply computed from bytes of another message (echoed serial / ID / multimedia ID / auth result differ)", fmt.Sprintf("conn %d: the upload that opened the connection", cid))
+			}
+			fragFirst = false // (complete: no re-request will come)
+			firstWasUpload = true
+		} else if t.Write(t.SubFrame(0x0801, first, 3, 2, fb)) != nil {
 			return nil, true, 0, nil
 		}
 		c09FragFirst.Add(1)
@@ -240,6 +260,9 @@ func c09Conn(srv *svc.Server, cid int, seed uint64, nframes int) (viol [][2]stri
 		}
 	}
 	checked += k
+	if firstWasUpload {
+		k-- // the upload that opened the connection is one more complete message
+	}
 	if k != len(reqs)+1 { // + the split heartbeat
 		bad("callback|read callbacks != one per message", fmt.Sprintf("conn %d: %d callbacks for %d messages", cid, k, len(reqs)+1))
 	}
